@@ -73,6 +73,37 @@ theorem C19_space_copy_faithful (w : World) (s : Nat) (w' : World) (s' : Nat) (h
   obtain ⟨cv, av, h1, _, h2⟩ := copy_view s hc
   exact ⟨cv, av, h1, h2⟩
 
+/-- **No reference of the copy leads to an old object.**  Everything the copy shows — its cells, the agents they list, their
+    connection targets, its registered agents and the cells they point to — is an object created by the copy. -/
+theorem C19_space_copy_mentions_only_new_objects (w : World) (s : Nat) (w' : World) (s' : Nat)
+    (hc : copySpace w s = some (w', s')) (cv' : List (Nat × Nat × Option Nat × List Nat × List Nat))
+    (av' : List (Nat × Nat × Option Nat)) (hv : view w' s' = some (cv', av')) :
+    (∀ e ∈ cv', w.next ≤ e.1 ∧ (∀ a ∈ e.2.2.2.1, w.next ≤ a) ∧ ∀ d ∈ e.2.2.2.2, w.next ≤ d) ∧
+    (∀ e ∈ av', w.next ≤ e.1 ∧ ∀ c, e.2.2 = some c → w.next ≤ c) := by
+  obtain ⟨cv, av, _, _, h2⟩ := copy_view s hc
+  rw [h2] at hv
+  simp only [Option.some.injEq, Prod.mk.injEq] at hv
+  obtain ⟨rfl, rfl⟩ := hv
+  constructor
+  · intro e he
+    simp only [List.mem_map] at he
+    obtain ⟨⟨c, i, cap, ags, conn⟩, _, rfl⟩ := he
+    simp only [shiftCellView, List.mem_map]
+    refine ⟨by omega, ?_, ?_⟩
+    · rintro a ⟨a0, _, rfl⟩; omega
+    · rintro d ⟨d0, _, rfl⟩; omega
+  · intro e he
+    simp only [List.mem_map] at he
+    obtain ⟨⟨a, u, c⟩, _, rfl⟩ := he
+    simp only [shiftAgentView]
+    refine ⟨by omega, ?_⟩
+    intro c' hc'
+    cases c with
+    | none => simp at hc'
+    | some c0 =>
+      simp only [Option.map_some, Option.some.injEq] at hc'
+      omega
+
 /-- **The copied agents point into the copy** (what S22 broke): every agent registered in the copy's model exists, and the
     cell it points to is a cell *of the copied space*, is a new object, and lists that agent. -/
 theorem C19_space_copied_agents_point_into_copy (w : World) (hw : WF w) (hi : Inv w) (s : Nat) (w' : World) (s' : Nat)
